@@ -35,3 +35,165 @@ Proof. exact (taps_are_true_paths grow grow_ok t). Qed.
 Print Assumptions c17_append_spec.
 Print Assumptions c17_siblings_isolated.
 Print Assumptions c17_taps_are_true_paths.
+
+(* ---- restated from Proofs/PathsP.v (statements printed by Coq, see tools/genmod.py) ---- *)
+
+From SbModel Require Import Proofs.PathsP.
+Module Snapshots.
+Import PathsP.AliasP.
+
+(* a path that was reported stays what it was: the COPY an error carries (snapshot) is the true path whatever is processed afterwards (`later`: any sequence of appends / traversals from the parent's or the child's slice) *)
+Theorem c17_snapshot_stable :
+  forall grow : nat -> nat,
+         (forall n : nat, n < grow n) ->
+         forall (st : PathsAlias.store) (p : PathsAlias.slice) (pi : list nat) (x : nat)
+           (st1 : PathsAlias.store) (p1 : PathsAlias.slice),
+         PathsAlias.wf st p ->
+         PathsAlias.read st p = pi ->
+         PathsAlias.append grow st p x = (st1, p1) ->
+         let e := snapshot st1 p1 in
+         forall st' : PathsAlias.store, later grow (p :: p1 :: nil) st1 st' -> e = (pi ++ x :: nil)%list.
+Proof. exact snapshot_stable. Qed.
+
+(* why the copy is needed: a kept slice HEADER of a child context is rewritten by the next sibling's append when the parent path has spare capacity (len 3, cap 4, doubling growth) - the defect a change that keeps views instead of copies introduces *)
+Theorem c17_view_refuted :
+  exists
+           (grow : nat -> nat) (st : PathsAlias.store) (p : PathsAlias.slice) (pi : list nat)
+         (x y : nat) (st1 : PathsAlias.store) (p1 : PathsAlias.slice) (st2 : PathsAlias.store)
+         (p2 : PathsAlias.slice),
+           (forall n : nat, n < grow n) /\
+           PathsAlias.wf st p /\
+           PathsAlias.read st p = pi /\
+           x <> y /\
+           PathsAlias.append grow st p x = (st1, p1) /\
+           PathsAlias.append grow st1 p y = (st2, p2) /\
+           later grow (p :: p1 :: nil) st1 st2 /\
+           snapshot st1 p1 = (pi ++ x :: nil)%list /\
+           view p1 st1 = (pi ++ x :: nil)%list /\
+           view p1 st2 = (pi ++ y :: nil)%list /\ view p1 st2 <> view p1 st1.
+Proof. exact view_refuted. Qed.
+
+(* and when it would be harmless: a parent path without spare capacity *)
+Theorem c17_view_stable_when_full :
+  forall grow : nat -> nat,
+         (forall n : nat, n < grow n) ->
+         forall (st : PathsAlias.store) (p : PathsAlias.slice) (x : nat) (st1 : PathsAlias.store)
+           (p1 : PathsAlias.slice),
+         PathsAlias.wf st p ->
+         PathsAlias.len p = PathsAlias.cap p ->
+         PathsAlias.append grow st p x = (st1, p1) ->
+         forall st' : PathsAlias.store, later grow (p :: p1 :: nil) st1 st' -> view p1 st' = view p1 st1.
+Proof. exact view_stable_when_full. Qed.
+
+Theorem c17_view_stable_own :
+  forall grow : nat -> nat,
+         (forall n : nat, n < grow n) ->
+         forall (st st' : PathsAlias.store) (p : PathsAlias.slice),
+         PathsAlias.wf st p -> later grow (p :: nil) st st' -> view p st' = view p st.
+Proof. exact view_stable_own. Qed.
+
+(* the same on a whole traversal: the taps SAW the true paths, the headers read at the end do not show them *)
+Theorem c17_hdrs_refuted :
+  exists (grow : nat -> nat) (t : PathsAlias.tree),
+           (forall n : nat, n < grow n) /\
+           (let
+            '(st', hs) := visit_h grow PathsAlias.st0 PathsAlias.p0 t in
+             snd (PathsAlias.visit grow PathsAlias.st0 PathsAlias.p0 t) =
+             (nil :: (1 :: nil) :: (1 :: 2 :: nil) :: (1 :: 3 :: nil) :: nil)%list /\
+             List.map (fun h : PathsAlias.slice => PathsAlias.read st' h) hs =
+             (nil :: (1 :: nil) :: (1 :: 3 :: nil) :: (1 :: 3 :: nil) :: nil)%list /\
+             List.map (fun h : PathsAlias.slice => PathsAlias.read st' h) hs <> PathsAlias.paths nil t).
+Proof. exact hdrs_refuted. Qed.
+
+(* several documents processed one after the other from the same base context: every run's taps are the true paths of its own tree *)
+Theorem c17_runs_taps_true_paths :
+  forall grow : nat -> nat,
+         (forall n : nat, n < grow n) ->
+         forall (ts : list PathsAlias.tree) (st : PathsAlias.store) (p : PathsAlias.slice) (pi : list nat),
+         PathsAlias.wf st p ->
+         PathsAlias.read st p = pi ->
+         let
+         '(st', tapss) := runs grow st p ts in
+          tapss = List.map (PathsAlias.paths pi) ts /\
+          PathsAlias.frame st st' (PathsAlias.arr p) (PathsAlias.len p).
+Proof. exact runs_taps_true_paths. Qed.
+
+(* each run reports what it reports alone *)
+Theorem c17_runs_independent :
+  forall grow : nat -> nat,
+         (forall n : nat, n < grow n) ->
+         forall (ts : list PathsAlias.tree) (st : PathsAlias.store) (p : PathsAlias.slice),
+         PathsAlias.wf st p ->
+         snd (runs grow st p ts) = List.map (fun t : PathsAlias.tree => snd (PathsAlias.visit grow st p t)) ts.
+Proof. exact runs_independent. Qed.
+
+End Snapshots.
+
+From SbModel Require Import Proofs.PathsP.
+Module MarshalTaps.
+Import PathsP.TapsP.
+
+(* the tap log of the marshal model (Model/MarshalTaps.v, compared with the code's tap log on every run) is exactly the declarative path of every element in pre-order (paths_of: struct fields by name in declaration order, unexported ones skipped; items by index; map entries by key in marshalled order; pointers and interfaces add nothing; tuple results by index) - for every value whose maps have pairwise distinct key streams (maps_ok) *)
+Theorem c17_marshal_taps_are_paths :
+  forall (o : Types.copts) (t : Types.ty) (v : Types.gval) (pi : list MarshalTaps.pelem),
+         maps_ok t v = true -> MarshalTaps.mtaps o t v pi = paths_of o t v pi.
+Proof. exact marshal_taps_are_paths. Qed.
+
+Theorem c17_marshal_taps_are_paths_no_maps :
+  forall (o : Types.copts) (t : Types.ty) (v : Types.gval) (pi : list MarshalTaps.pelem),
+         no_maps v = true -> MarshalTaps.mtaps o t v pi = paths_of o t v pi.
+Proof. exact marshal_taps_are_paths_no_maps. Qed.
+
+(* the domain edge: two keys with equal key streams (+0 / -0) - the same edge as c08_tied_keys_edge; the tap cases of the harness exclude tied keys *)
+Theorem c17_marshal_taps_tied_keys_edge :
+  exists (o : Types.copts) (t : Types.ty) (v : Types.gval),
+           Conform.has_type t v = true /\
+           maps_ok t v = false /\ MarshalTaps.mtaps o t v nil <> paths_of o t v nil.
+Proof. exact marshal_taps_are_paths_refuted. Qed.
+
+Theorem c17_root_tap_path :
+  forall (o : Types.copts) (t : Types.ty) (v : Types.gval) (pi : list MarshalTaps.pelem),
+         exists tl : list (list MarshalTaps.pelem * BinNums.N),
+           MarshalTaps.mtaps o t v pi = ((pi, MarshalTaps.tap_kind t) :: tl)%list.
+Proof. exact root_tap_path. Qed.
+
+Theorem c17_taps_extend_root :
+  forall (o : Types.copts) (t : Types.ty) (v : Types.gval) (pi : list MarshalTaps.pelem)
+           (tp : MarshalTaps.tap),
+         maps_ok t v = true ->
+         List.In tp (MarshalTaps.mtaps o t v pi) -> exists s : list MarshalTaps.pelem, fst tp = (pi ++ s)%list.
+Proof. exact taps_extend_root. Qed.
+
+(* no two elements under different path elements share a path *)
+Theorem c17_sibling_taps_disjoint :
+  forall (o : Types.copts) (pi : list MarshalTaps.pelem) (e1 e2 : MarshalTaps.pelem)
+           (t1 : Types.ty) (v1 : Types.gval) (t2 : Types.ty) (v2 : Types.gval) (a b : MarshalTaps.tap),
+         e1 <> e2 ->
+         maps_ok t1 v1 = true ->
+         maps_ok t2 v2 = true ->
+         List.In a (MarshalTaps.mtaps o t1 v1 (pi ++ e1 :: nil)) ->
+         List.In b (MarshalTaps.mtaps o t2 v2 (pi ++ e2 :: nil)) -> fst a <> fst b.
+Proof. exact sibling_taps_disjoint. Qed.
+
+(* one tap per element *)
+Theorem c17_taps_count :
+  forall (o : Types.copts) (t : Types.ty) (v : Types.gval) (pi : list MarshalTaps.pelem),
+         maps_ok t v = true -> length (MarshalTaps.mtaps o t v pi) = vsize (elements o t v).
+Proof. exact taps_count. Qed.
+
+End MarshalTaps.
+
+Print Assumptions Snapshots.c17_snapshot_stable.
+Print Assumptions Snapshots.c17_view_refuted.
+Print Assumptions Snapshots.c17_view_stable_when_full.
+Print Assumptions Snapshots.c17_view_stable_own.
+Print Assumptions Snapshots.c17_hdrs_refuted.
+Print Assumptions Snapshots.c17_runs_taps_true_paths.
+Print Assumptions Snapshots.c17_runs_independent.
+Print Assumptions MarshalTaps.c17_marshal_taps_are_paths.
+Print Assumptions MarshalTaps.c17_marshal_taps_are_paths_no_maps.
+Print Assumptions MarshalTaps.c17_marshal_taps_tied_keys_edge.
+Print Assumptions MarshalTaps.c17_root_tap_path.
+Print Assumptions MarshalTaps.c17_taps_extend_root.
+Print Assumptions MarshalTaps.c17_sibling_taps_disjoint.
+Print Assumptions MarshalTaps.c17_taps_count.
